@@ -372,7 +372,11 @@ type Source struct {
 	Sizes  []int // bytes returned per call (capped log)
 	sticky error
 	Sticky bool // after the first injected error every later call fails with it
+	// EOFWithData: the Read that delivers the last byte of Data returns io.EOF together with it, as
+	// the io.Reader contract allows (iotest.DataErrReader, some device and network readers).
+	EOFWithData bool
 }
+
 
 func (s *Source) Read(p []byte) (int, error) {
 	vsched.Yield("read-enter")
@@ -415,6 +419,9 @@ func (s *Source) read(call int, p []byte) (int, error) {
 	}
 	copy(p, s.Data[s.pos:s.pos+n])
 	s.pos += n
+	if s.EOFWithData && err == nil && n > 0 && s.pos == len(s.Data) {
+		err = io.EOF
+	}
 	return n, err
 }
 
